@@ -509,6 +509,21 @@ let op_exprkind (args : str list) : str list =
   | Some rs -> ["ok"; S.concat " " (List.map (function ErVar n -> "V:" ^ hex_of_text n | ErEnum n -> "E:" ^ hex_of_text n) rs)]
   | None -> ["error"]
 
+(* the data type alias resolver: one declaration per argument (DD,name,kind,pos  DA,alias,base) -> ok <kinds of the
+   aliases> | err <code>@<pos> .. *)
+let dfact_of (w : str) : dfact =
+  match S.split_on_char ',' w with
+  | ["DD"; n; k; p] ->
+      TyDecl (text_of_hex n, (match k with "simple" -> Some DkSimple | "enum" -> Some DkEnum | "struct" -> Some DkStruct | _ -> None),
+             n_of_int (int_of_string p))
+  | ["DA"; n; b] -> TyAlias (text_of_hex n, text_of_hex b)
+  | _ -> failwith ("bad declaration fact " ^ w)
+let op_datadecl (args : str list) : str list =
+  let fs = List.map dfact_of (List.filter (fun w -> w <> "") args) in
+  match xform_data_decl fs with
+  | Inl ks -> ["ok"; S.concat " " (List.map (function DkSimple -> "simple" | DkEnum -> "enum" | DkStruct -> "structinit") ks)]
+  | Inr ds -> ["err"; S.concat " " (List.map (fun (c, p) -> dec_of_n c ^ "@" ^ dec_of_n p) ds)]
+
 (* a library of function blocks and programs: "<hex text>" -> parsed <unit> <unit> .. | rejected | fuel | scope *)
 let sx_items ds =
   let vars = List.filter_map (function DVar (n, c, q, i) -> Some ("(var " ^ lname n ^ " " ^ sx_class c ^ " " ^ sx_qual q ^ " " ^ sx_dinit i ^ ")") | _ -> None) ds in
@@ -595,7 +610,7 @@ let op_lib2render (args : str list) : str list =
 
 let ops : (str * (str list -> str list)) list ref =
   ref [ ("lex", op_lex); ("semtok", op_semtok); ("decode", op_decode); ("lit", op_lit); ("cycle", op_cycle);
-        ("lsp", op_lsp); ("cli", op_cli); ("rule", op_rule); ("expr", op_expr); ("scope", op_scope); ("stmts", op_stmts); ("strender", op_strender); ("rules", op_rules); ("latebound", op_latebound); ("fbd", op_fbd); ("fbdrender", op_fbdrender); ("lib", op_lib); ("lib2", op_lib2); ("lib2render", op_lib2render); ("exprkind", op_exprkind) ]
+        ("lsp", op_lsp); ("cli", op_cli); ("rule", op_rule); ("expr", op_expr); ("scope", op_scope); ("stmts", op_stmts); ("strender", op_strender); ("rules", op_rules); ("latebound", op_latebound); ("fbd", op_fbd); ("fbdrender", op_fbdrender); ("lib", op_lib); ("lib2", op_lib2); ("lib2render", op_lib2render); ("exprkind", op_exprkind); ("datadecl", op_datadecl) ]
 
 
 let () =
